@@ -181,12 +181,12 @@ def merge_evidence(prop, tier, seed, frags, wall, violations, extra):
         u["evaluations"] += f["evaluations"]
         u["skipped"] += f.get("skipped", 0)
         skipped += f.get("skipped", 0)
-        for h in f.get("nontrivial_hashes", []):
+        for h in (f.get("nontrivial_hashes") or []):
             u["hashes"].add(h)
             hashes.add(f["unit"] + ":" + h)
-        for k, v in f.get("classes", {}).items():
+        for k, v in (f.get("classes") or {}).items():
             classes[k] = classes.get(k, 0) + v
-        for k, v in f.get("excluded_known", {}).items():
+        for k, v in (f.get("excluded_known") or {}).items():
             excluded[k] = excluded.get(k, 0) + v
         r = "%s: %s" % (f["unit"], f.get("rule", ""))
         if r not in rules:
